@@ -28,6 +28,7 @@ for _pid, _what in (("C02", "conservation (Contig, Piece, Sum, Cover, NonEmpty, 
              "on every synthetic paragraph up to a length bound (all cluster partitions, run splits, directions, policies, truncation settings, all widths) is a trace event that TLC steps through, evaluating every predicate at every step. "
              "Small-scope exhaustiveness fits: the wrapper's carried-over state spans at most a few candidates, and all defects found (4, fixed) showed at <= 3 runes.",
         note=_WRAP_NOTE)
+CHECKS["C04"]["technique"] += "; plus WrapImpl.tla, a PlusCal implementation model of LineWrapper model-checked against the same predicates as invariants (all scenarios <= 3/4 runes), with repair switches that must reproduce the two historical counterexamples"
 
 CHECKS["C15"] = dict(
     engine="css",
@@ -88,11 +89,11 @@ CHECKS["C16"] = dict(
 
 CHECKS["C01"] = dict(
     engine="shape",
-    technique="TLA+ call/return laws (ShapeAPI.tla) validated by TLC on recorded Shape calls over corpus fonts x inputs (shaping API and engine API), plus a TLA+ transcription of countClusters model-checked against the same laws",
+    technique="TLA+ call/return laws (ShapeAPI.tla) validated by TLC on recorded Shape calls over corpus fonts x inputs (shaping API and engine API), plus a TLA+ transcription of countClusters model-checked against the same laws, plus HBBuffer.tla (implementation model of harfbuzz.Buffer's in/out protocol): Monotone model-checked over all passes of a 4-glyph buffer and judged on the real buffer when TLC-generated passes are replayed on it",
     category="model_checking", design_ref="DESIGN.md §5 C01",
     text="Every recorded call (under recover and a watchdog) is an event; TLC evaluates Returned, Range, InRange, Monotone, ClusterUniform, CountsSum, Budget (and PosSync / Monotone per cluster level at the engine API). "
          "Inputs: sampled corpus faces (all in thorough) x multi-script and own-cmap texts x 7 directions x scripts x sizes x run bounds incl. degenerate ones. The cluster-count algorithm is additionally model-checked exhaustively for <= 5 glyphs over <= 5 runes.",
-    note="Trusts recover()/watchdog as the totality observation, TLC. Font x text space is sampled (seeded), not exhausted; an implementation model of the HarfBuzz buffer operations is not part of this check.")
+    note="Trusts recover()/watchdog as the totality observation, TLC. Font x text space is sampled (seeded), not exhausted; the buffer model covers the substitution-pass primitives (next/skip/replace/delete/merge/flag/swap), not the shapers that drive them.")
 CHECKS["C12"] = dict(
     engine="shape",
     technique="TLA+ geometric identities (Geometry.tla: advance sums, cross-axis zero, enclosing and tight bounds, line bounds = font extents, sideways = 90 degree rotation of the horizontal twin, word/letter spacing deltas) validated by TLC on recorded real shapings and on synthetic spacing scenarios",
@@ -111,17 +112,18 @@ CHECKS["C07"] = dict(
 
 CHECKS["C18"] = dict(
     engine="utb",
-    technique="TLA+ cut-at-safe-boundaries protocol (SafeBreak.tla: the cut set is recomputed by the spec from the flagged whole, the recorded pieces must be exactly its segments, Concat and FlagsUniform) validated by TLC on whole/piece shapings of corpus fonts",
+    technique="TLA+ cut-at-safe-boundaries protocol (SafeBreak.tla: the cut set is recomputed by the spec from the flagged whole, the recorded pieces must be exactly its segments, Concat and FlagsUniform) validated by TLC on whole/piece shapings of corpus fonts in every direction; plus HBBuffer.tla, an implementation model of harfbuzz.Buffer's in/out protocol: the FlagsCover law model-checked over all passes of a 4-glyph buffer, TLC-generated passes replayed on the real buffer and judged by the HBBufferV monitor",
     category="model_checking", design_ref="DESIGN.md §5 C18",
     text="For every case the harness records the whole shaping with per-glyph cluster, unsafe flag and a position signature, and the shapings of the pieces; TLC recomputes the safe cut set, checks that the pieces are exactly the segments (so the harness cannot cut elsewhere), that flags are uniform per cluster and that the concatenated pieces reproduce the whole. "
-         "All 583 OpenType-layout faces of the corpus x texts from their own coverage and script samples x directions.",
-    note="Trusts GuessSegmentProperties for the native direction, signature strings as glyph identity, TLC. Non-native directions are out of scope (the engine reverses the buffer and the supplied context is no longer the logical neighbour). Texts sampled by seed; no implementation model of contextual lookups is part of this check.")
+         "All 583 OpenType-layout faces of the corpus x texts from their own coverage, script samples and texts derived from the face's own contextual rules (including rules without nested lookup) x LTR/RTL/TTB/BTT x language systems x optional features. "
+         "Buffer level: TLC checks FlagsCover and Monotone on every state of HBBufferMC (6.9e5 states, logical order), must find the two documented counterexamples (reversed buffer + ligature, deletion of the only flagged glyph), and its simulated passes are replayed primitive by primitive on the real buffer (verif export), the laws being judged on the real states.",
+    note="Trusts GuessSegmentProperties for the native direction (a class feature only), signature strings as glyph identity, TLC. Five upstream-shared limitations are known findings identified by a cause class computed from the text (necessary conditions): a regression confined to one of those classes is masked. Texts sampled by seed; the contextual lookups themselves are not modelled, only the buffer protocol they drive.")
 
 CHECKS["C17"] = dict(
     engine="conc",
-    technique="TLA+ model of goroutine programs over a shared immutable font (Conc.tla; all interleavings model-checked for sequential equivalence), program sets generated by TLC -simulate, executed free-running on the real library built with the Go race detector, validated by the ConcV monitor (SeqEquiv, NoRace)",
+    technique="TLA+ model of goroutine programs over a shared immutable font (Conc.tla; all interleavings model-checked for sequential equivalence), program sets generated by TLC -simulate, executed free-running on the real library built with the Go race detector over fonts rotating through the corpus, plus a fixed sweep program printed by the spec and run on every AAT/variable font; validated by the ConcV monitor (SeqEquiv, NoRace, Total, Terminates)",
     category="exploration", design_ref="DESIGN.md §5 C17",
-    text="TLC supplies the programs and the law (each step's result equals the result of the same program run alone; no race report); the harness runs each program set with 16-64 goroutines sharing six parsed fonts, sequentially first for reference digests. "
+    text="TLC supplies the programs and the law (each step's result equals the result of the same program run alone; no race report); the harness runs each program set with 18-72 goroutines sharing six parsed fonts (one per kind of shared data, rotating through the corpus; variations on the font's real axes), sequentially first for reference digests; results are digested after the concurrent phase so that no sync.Pool edge orders the goroutines. "
          "Exploration is the honest level: the library has no synchronisation protocol to model, so memory-level interleavings are sampled by the scheduler and observed by the race detector, not enumerated.",
     note="Trusts the Go race detector and scheduler sampling; sha1 digests as results. The abstract interleaving model says nothing about the code by itself.")
 CHECKS["C09"] = dict(
@@ -130,7 +132,7 @@ CHECKS["C09"] = dict(
     category="fault_enumeration", design_ref="DESIGN.md §5 C09",
     text="Every single fault of the model (truncations, directory field boundary values, header words of each table, swaps, table count) and every pair of directory faults on the first tables is applied to each font of the corpus; "
          "the monitor accepts only Ok/Err outcomes, bounds allocation by 64 x size + 64 MiB and predicts the result of RawTable from the directory. Time-outs and dead workers are re-run in isolation three times before they count.",
-    note="Function-level known-finding signatures (top library frame + error kind). Not coverage-guided: deep structures are reached through the first 64 bytes of tables and truncations only. Quick tier samples 60 files x 250 plans by seed.")
+    note="Function-level known-finding signatures (top library frame + error kind). Not coverage-guided: deep structures are reached through the first 64 bytes of tables and truncations only. Quick tier samples 150 files x 600 plans by seed.")
 
 CHECKS["C10"] = dict(
     engine="glyf",
